@@ -1,15 +1,35 @@
 #!/bin/bash
-# MANIFEST.setup_cmd: offline pre-build of every check in every profile it uses.
+# MANIFEST.setup_cmd: offline pre-build of every check in every profile / sanitizer
+# stage its quick command uses, so that the quick commands only rebuild what
+# changed in /repo. Everything comes from files on disk (cargo registry cache,
+# rust toolchains, clang); nothing is fetched.
 set -u
-cd "$(dirname "$0")/harness"
+cd "$(dirname "$0")"
+V=$(pwd)
 export CARGO_NET_OFFLINE=true
-[ -f Cargo.lock ] || cp /repo/Cargo.lock Cargo.lock
 rc=0
-cargo build --profile strict --workspace 2>&1 | tail -3 || rc=1
-cargo build --profile rel --workspace 2>&1 | tail -3 || rc=1
-if [ -d ../harness-ft ]; then
-  cd ../harness-ft
+cd "$V/harness"
+[ -f Cargo.lock ] || cp /repo/Cargo.lock Cargo.lock
+cargo build --profile strict --workspace 2>&1 | tail -2 || rc=1
+# rel is only used by some checks; build just those
+cargo build --profile rel -p vf-core -p vf-c01 -p vf-c02 -p vf-c07 -p vf-c12 -p vf-c13 -p vf-c15 2>&1 | tail -2 || rc=1
+if [ -d "$V/harness-ft" ]; then
+  cd "$V/harness-ft"
   [ -f Cargo.lock ] || cp /repo/Cargo.lock Cargo.lock
-  cargo build --profile rel 2>&1 | tail -3 || rc=1
+  cargo build --profile rel --bin vf-c03 2>&1 | tail -2 || rc=1
 fi
+# sanitizer stages that run in the quick tier: ASan build (C brotli instrumented with clang) ...
+cd "$V/harness"
+for c in vf-c02 vf-c18; do
+  CARGO_TARGET_DIR="$V/harness/target-asan" CC=clang CFLAGS="-fsanitize=address -fno-omit-frame-pointer" \
+  RUSTFLAGS="-Zsanitizer=address -Cforce-frame-pointers=yes --cfg googlefonts_fontations_verif" \
+    cargo +nightly build --profile rel --target x86_64-unknown-linux-gnu -p $c 2>&1 | tail -1 || true
+done
+# ... and the Miri slices (cargo miri has no build-only mode: run each small slice once)
+mkdir -p "$V/evidence/.partials"
+for c in vf-c15 vf-c14 vf-c01 vf-c12; do
+  CARGO_TARGET_DIR="$V/harness/target-miri" MIRIFLAGS="-Zmiri-disable-isolation" VF_CASE_WALL_LIMIT_S=3600 \
+    timeout 1200 cargo +nightly miri run -q -p $c -- --profile miri --tier quick --seed 1 --out "$V/evidence/.partials/setup.$c.json" >/dev/null 2>&1 || true
+done
+rm -f "$V"/evidence/.partials/setup.*
 exit $rc
